@@ -11,6 +11,7 @@ ordered pair of components (validated entry by entry by the correspondence check
 -/
 import MiciVerif.Lemmas.Adapters
 import MiciVerif.Lemmas.AdaptersSearch
+import Mathlib.Analysis.SpecialFunctions.Pow.Real
 
 namespace MiciVerif.C17
 open MiciVerif.Adapters
@@ -416,9 +417,10 @@ theorem da_smoothed_combination (P : DAParams K) (as : List K) : ∀ (s : DAStat
     simp only [List.length_cons, wts_succ, coef, run_cons, logSteps_cons, List.zipWith_cons_cons,
       List.sum_cons]
     refine ⟨by simp [h1], ?_, fun hw _ => by rw [hw]; ring, ?_⟩
-    · rw [← h2]; ring
+    · rw [show ∀ x w y : K, x * (1 - w) + (x * w + y) = x + y from fun _ _ _ => by ring]
+      exact h2
     · rw [h4]
-      simp only [DAState.update, hi]
+      simp only [DAState.update]
       ring
 
 /-- With weights in `[0,1]` all coefficients are non-negative (a convex combination), and
@@ -622,5 +624,42 @@ example : ∃ r, findInitStepSize false 4
   search_succeeds 4 _ _ 2 (by decide) (Or.inr (by decide +kernel))
 
 end Search
+
+section RealInstance
+
+/-- The functions the implementation really applies, `math.exp` and `(1/iter)**kappa` with
+`kappa ≥ 0`, satisfy the hypotheses used above: weights in `[0,1]`, first weight 1, `exp > 0`. -/
+theorem real_functions_ok (κ : ℝ) (hκ : 0 ≤ κ) :
+    (∀ k : Nat, 0 ≤ (1 / (k : ℝ)) ^ κ ∧ (1 / (k : ℝ)) ^ κ ≤ 1) ∧
+    (1 / ((0 + 1 : Nat) : ℝ)) ^ κ = 1 ∧ ∀ x : ℝ, 0 < Real.exp x := by
+  refine ⟨fun k => ?_, by simp, Real.exp_pos⟩
+  have h0 : (0 : ℝ) ≤ 1 / (k : ℝ) := by positivity
+  have h1 : 1 / (k : ℝ) ≤ 1 := by
+    rcases k with _ | k
+    · simp
+    · rw [div_le_one (by positivity)]
+      exact_mod_cast Nat.succ_le_succ (Nat.zero_le k)
+  exact ⟨Real.rpow_nonneg h0 κ, Real.rpow_le_one h0 h1 hκ⟩
+
+/-- Dual averaging over ℝ with the real `exp`, `sqrt` and `(1/iter)^κ`: after any non-empty
+sequence of statistics from the initial state, every step size tried is positive and the
+smoothed iterate — whose exponential `finalize` installs — lies between the smallest and the
+largest `log_step_size` tried. -/
+theorem da_real (target regCoeff iterOffset κ : ℝ) (hκ : 0 ≤ κ) (rt : Option ℝ) (l : ℝ)
+    (as : List ℝ) (has : as ≠ []) (lo hi : ℝ) :
+    let P : DAParams ℝ := ⟨target, regCoeff, iterOffset, fun k => Real.sqrt k,
+      fun k => (1 / (k : ℝ)) ^ κ, Real.exp⟩
+    (∀ x ∈ DAState.stepSizes P (DAState.init rt l) as, 0 < x) ∧
+    ((∀ x ∈ DAState.logSteps P (DAState.init rt l) as, lo ≤ x ∧ x ≤ hi) →
+      lo ≤ ((DAState.init rt l).run P as).smoothed ∧
+      ((DAState.init rt l).run P as).smoothed ≤ hi) := by
+  intro P
+  obtain ⟨hw, h1, hexp⟩ := real_functions_ok κ hκ
+  refine ⟨(da_step_sizes_pos P hexp as _).2, fun hl => ?_⟩
+  exact da_smoothed_in_hull P hw as lo hi (DAState.init rt l) (Or.inl h1) has hl
+
+example : (0 : ℝ) < Real.exp (-3) := (real_functions_ok (3 / 4) (by norm_num)).2.2 _
+
+end RealInstance
 
 end MiciVerif.C17
